@@ -848,6 +848,13 @@ class Sx:
         f = self.as_fraction()
         if f is not None:
             return format(float(f), spec)
+        import re as _re
+        mt = _re.fullmatch(r'\.(\d+)f', spec)
+        if mt:
+            # fixed-point formatting keeps N decimals: the text carries the value rounded to a multiple of 10^-N
+            from . import symio
+            sc = 10 ** int(mt.group(1))
+            return symio.make_token((self * sc).rint() / sc)
         return repr(self)
 
     def __repr__(self):
